@@ -32,7 +32,11 @@ RULE = ("case = generated machine config (1-3 flippers, 1-3 autofire coils, 0-1 
         "installed AND removed, the rule-table invariant was evaluated, and a lifecycle-off instant (ball end / tilt / "
         "service / no game) was evaluated with devices that had been enabled before")
 ASSUMPTIONS = [
-    "every generated device owns distinct (switch, coil) pairs (switches may be shared between devices, coils not)",
+    "every generated device owns distinct (switch, coil) pairs (switches may be shared between devices, coils not), "
+    "except 'twin' autofire coils/kickbacks: two devices on the same switch and coil with different pulse settings, "
+    "handed over by ONE shared event (disable_events of the one, enable_events of the other; a second event hands "
+    "back); the harness never enables both twins together by other means (that is a configuration error which the "
+    "platform refuses) and posts the hand-over only during a live ball as the first request of its instant",
     "control events are not listed as both enable and disable event of one device; no delayed (event|ms) control events",
     "request/lifecycle clauses are evaluated only at instants strictly later (virtual time) than the last request, "
     "control event or rule change, i.e. after everything scheduled for that instant has run; the rule-table/enabled "
@@ -105,6 +109,10 @@ def _gen_cfg(rng, tier):
         if rng.random() < 0.3:
             k["timeout"] = [1000, 2, 1000]
         autofires.append(k)
+    for a in autofires:
+        # a second device of the same kind on the SAME switch and coil with another pulse strength; one shared
+        # event hands the pair over (disable of the one + enable of the other), and another one hands it back
+        a["twin"] = rng.random() < 0.45
     bs_possible = any(f["bs"] for f in flippers) or any(a["bs"] for a in autofires)
     return {"flippers": flippers, "autofires": autofires,
             "balls_per_game": rng.choice([1, 2, 3]),
@@ -145,8 +153,11 @@ def _gen_ops(rng, tier, cfg):
                                                                          "sw_flip", "sw_flip", "sw_release"]),
                             rng.choice(["call", "event"])])
             else:
-                ops.append(["dev", "a", rng.randrange(na), rng.choice(["enable", "disable"]),
-                            rng.choice(["call", "event"])])
+                i = rng.randrange(na)
+                if cfg["autofires"][i].get("twin") and rng.random() < 0.6:
+                    ops.append(["hand", i, rng.choice(["up", "up", "down"])])
+                else:
+                    ops.append(["dev", "a", i, rng.choice(["enable", "disable"]), rng.choice(["call", "event"])])
         elif k < 0.44:
             ops.append(["repulse", rng.choice(rep) if rep and rng.random() < 0.8 else rng.randrange(nf),
                         rng.random() < 0.4])
@@ -212,6 +223,8 @@ def _names(cfg):
         d["psu"] = [(btn, d["main"])] + ([(btn, d["hold"])] if f["hold"] else [])
         d["en_ev"] = {"ball_started", d["name"] + "_on"}
         d["dis_ev"] = {"ball_will_end", "service_mode_entered", d["name"] + "_off"}
+        d["twin_of"] = None
+        d["twin"] = None
         devs.append(d)
     for i, a in enumerate(cfg["autofires"]):
         kb = a["kind"] == "kickback"
@@ -222,7 +235,22 @@ def _names(cfg):
         d["psu"] = [(d["sw"], d["coil"])]
         d["en_ev"] = {d["name"] + "_on"} | (set() if kb else {"ball_started"})
         d["dis_ev"] = {"ball_will_end", "service_mode_entered", d["name"] + "_off"}
+        d["twin_of"] = None
+        d["twin"] = None
         devs.append(d)
+        if a.get("twin"):
+            up, down = "h%d_up" % i, "h%d_down" % i
+            d["en_ev"].add(down)
+            d["dis_ev"].add(up)
+            tcfg = {"kind": a["kind"], "reverse": a["reverse"], "nc": a["nc"], "timeout": None, "bs": 0,
+                    "delay": a["delay"], "ow": False, "twin_pulse_ms": 31 + i}
+            t = {"kind": a["kind"], "name": d["name"] + "t", "idx": i, "sw": d["sw"], "coil": d["coil"], "cfg": tcfg,
+                 "repulse": False, "keys": list(d["keys"]), "n_rules": 1, "psu": list(d["psu"]),
+                 "en_ev": {up}, "dis_ev": {"ball_will_end", "service_mode_entered", down},
+                 "twin_of": d["name"], "twin": None, "up": up, "down": down}
+            d["twin"] = t["name"]
+            d["up"], d["down"] = up, down
+            devs.append(t)
     return devs
 
 
@@ -261,10 +289,11 @@ def _build_config(cfg):
             flippers[d["name"]] = fc
         else:
             a = d["cfg"]
-            coils[d["coil"]] = {"number": None, "default_pulse_ms": 18 + d["idx"]}
-            switches[d["sw"]] = {"number": None}
-            if a["nc"]:
-                switches[d["sw"]]["type"] = "NC"
+            if d["twin_of"] is None:
+                coils[d["coil"]] = {"number": None, "default_pulse_ms": 18 + d["idx"]}
+                switches[d["sw"]] = {"number": None}
+                if a["nc"]:
+                    switches[d["sw"]]["type"] = "NC"
             ac = {"coil": d["coil"], "switch": d["sw"], "reverse_switch": bool(a["reverse"]),
                   "enable_events": ", ".join(sorted(d["en_ev"])), "disable_events": ", ".join(sorted(d["dis_ev"])),
                   "ball_search_order": a["bs"]}
@@ -277,6 +306,8 @@ def _build_config(cfg):
             if a["ow"]:
                 ac["coil_overwrite"] = {"pulse_ms": 7, "recycle": False}
                 ac["switch_overwrite"] = {"debounce": "normal"}
+            if a.get("twin_pulse_ms"):
+                ac["coil_overwrite"] = {"pulse_ms": a["twin_pulse_ms"]}
             if d["kind"] == "kickback":
                 ac["playfield"] = "playfield"
                 kickbacks[d["name"]] = ac
@@ -355,9 +386,9 @@ class _Monitor:
                         mon.double_set.append((k, name))
                     desc = (name, coil.pulse_settings, coil.hold_settings, coil.recycle,
                             tuple((s.invert, s.debounce) for s in a if hasattr(s, "hw_switch")))
-                    if k in mon.settings and mon.settings[k] != desc:
-                        mon.unstable.append((k, mon.settings[k], desc))
-                    mon.settings.setdefault(k, desc)
+                    mon.settings.setdefault(k, [])
+                    if desc not in mon.settings[k]:
+                        mon.settings[k].append(desc)
                 try:
                     return orig(self_, *a, **kw)
                 finally:
@@ -465,7 +496,7 @@ def _run(case, mon):
     obs = {"rule_sets": 0, "rule_clears": 0, "clears_of_absent_rule": 0, "driver_commands": 0, "games_started": 0,
            "balls_started": 0, "balls_ended": 0, "tilts": 0, "service_entries": 0, "ball_searches": 0,
            "timeout_trips": 0, "sw_repulses": 0, "enable_requests": 0, "disable_requests": 0, "sw_flips": 0,
-           "off_instants": 0, "ball_started_with_stale_tilted_flag": 0, "ball_started_after_game_stop": 0, "game_started_in_service_mode": 0, "off_with_prior_enable": 0, "iteration_checks": 0, "requests_on_same_instant": 0}
+           "off_instants": 0, "handovers": 0, "ball_started_with_stale_tilted_flag": 0, "ball_started_after_game_stop": 0, "game_started_in_service_mode": 0, "off_with_prior_enable": 0, "iteration_checks": 0, "requests_on_same_instant": 0}
     viol = []
     seen_sigs = set()
     shape = []
@@ -502,9 +533,11 @@ def _run(case, mon):
             d["want_since"] = 0.0
             by_name[d["name"]] = d
         key_owner = {}
+        n_owners = {}
         for d in devs:
             for k in d["hwkeys"]:
-                key_owner[k] = d
+                key_owner.setdefault(k, d)
+                n_owners[k] = n_owners.get(k, 0) + 1
         st = {"dirty_t": vm.now(), "ball_live": False, "pending_check": False, "tilt_seen": False, "svc_exit": None,
               "game_started_in_service": False}
 
@@ -532,6 +565,8 @@ def _run(case, mon):
                       "mode_game_stopping", "mode_game_stopped"}
         for d in devs:
             spy_events |= d["en_ev"] | d["dis_ev"]
+
+        pending_up = {d["up"]: 0 for d in devs if d["twin"]}
 
         def mk_spy(ev):
             def spy(**kwargs):
@@ -563,6 +598,8 @@ def _run(case, mon):
                 elif ev == "ball_will_end":
                     st["ball_live"] = False
                     obs["balls_ended"] += 1
+                if ev in pending_up:
+                    pending_up[ev] = max(0, pending_up[ev] - 1)
                 for d in devs:
                     if ev in d["dis_ev"]:
                         d["want"] = False
@@ -631,10 +668,11 @@ def _run(case, mon):
                 V("installed_once", "C10:rule_installed_twice", where=where, t=vm.now(), setter=name,
                   device=o["name"] if o else None, key=[repr(k[0]), repr(k[1])])
             clauses["rule_stable"] += 1
-            if mon.unstable:
-                k, a, b = mon.unstable[0]
-                V("rule_stable", "C10:rule_settings_differ_between_enables", key=[repr(k[0]), repr(k[1])],
-                  first=repr(a), later=repr(b))
+            for k, descs in mon.settings.items():
+                # one settings tuple per device that owns the pair (a twin pair has two)
+                if len(descs) > n_owners.get(k, 1):
+                    V("rule_stable", "C10:rule_settings_differ_between_enables", key=[repr(k[0]), repr(k[1])],
+                      seen=[repr(x) for x in descs[:3]], owners=n_owners.get(k, 1))
             # software parts of a rule live in the switch-handler registry
             clauses["software_rule_handlers"] += 1
             eos, psu = sw_handler_counts()
@@ -648,10 +686,13 @@ def _run(case, mon):
                         V("software_rule_handlers",
                           "C10:software_eos_handlers_leaked" if n > exp else "C10:software_eos_handlers_missing",
                           where=where, t=vm.now(), device=d["name"], handlers=n, expected=exp, enabled=en)
+                if d["twin_of"] is not None:
+                    continue        # judged together with the device it shares the pair with
+                other = by_name[d["twin"]] if d["twin"] else None
                 for k in d["psu_keys"]:
                     n = psu.get(k, 0)
-                    exp = 1 if en else 0
-                    # a shared button: handlers are keyed by (switch, Driver), so still per device
+                    # handlers are keyed by (switch, Driver): per device, except for a twin pair (same key)
+                    exp = (1 if en else 0) + (1 if other is not None and other["dev"]._enabled else 0)
                     if n != exp:
                         V("software_rule_handlers",
                           "C10:psu_handler_leaked" if n > exp else "C10:psu_handler_missing",
@@ -696,7 +737,10 @@ def _run(case, mon):
                     clauses["lifecycle_off"] += 1
                     if d["ever_enabled"]:
                         obs["off_with_prior_enable"] += 1
-                    left = [plat.rules[k] for k in d["hwkeys"] if k in plat.rules]
+                    # a pair shared with a twin: the rule only counts against this device if the twin is off too
+                    tw = by_name.get(d["twin"] or d["twin_of"] or "")
+                    left = [plat.rules[k] for k in d["hwkeys"]
+                            if k in plat.rules and not (tw is not None and tw["dev"]._enabled)]
                     if en or left:
                         V("lifecycle_off",
                           d["late_enable"] if d["late_enable"] else "C10:rule_remains_" + off,
@@ -768,7 +812,7 @@ def _run(case, mon):
                     m.events.post(d["name"] + "_rel")
 
         flips = [d for d in devs if d["kind"] == "flipper"]
-        autos = [d for d in devs if d["kind"] != "flipper"]
+        autos = [d for d in devs if d["kind"] != "flipper" and d["twin_of"] is None]
 
         def run_op(op):
             kind = op[0]
@@ -785,7 +829,31 @@ def _run(case, mon):
                 if d["kind"] != "flipper" and action not in ("enable", "disable"):
                     action = "enable"
                 shape.append(op[1] + action[0] + action[-1] + op[4][0])
+                if action == "enable" and d.get("twin"):
+                    # two devices on one switch/coil pair must not be enabled together (a configuration error, the
+                    # platform refuses it): no direct enable while the twin is, or is about to be, enabled
+                    tw = by_name[d["twin"]]
+                    if tw["want"] or tw["dev"]._enabled or pending_up[d["up"]]:
+                        return
                 do_request(d, action, op[4])
+            elif kind == "hand":
+                d = autos[op[1] % len(autos)]
+                if not d.get("twin"):
+                    return
+                shape.append("H" + op[2][0])
+                if op[2] == "up":
+                    # only during a live ball and as the first request of its instant, so that ball_will_end (which
+                    # disables the twin again) cannot be queued ahead of it and the twin never meets ball_started
+                    if off_reason() or not st["ball_live"] or vm.now() <= st["dirty_t"] + 1e-9:
+                        return
+                    touch()
+                    pending_up[d["up"]] += 1
+                    obs["handovers"] += 1
+                    m.events.post(d["up"])
+                else:
+                    touch()
+                    obs["handovers"] += 1
+                    m.events.post(d["down"])
             elif kind == "sw":
                 d = flips[op[2] % len(flips)]
                 name = d["eos"] if (op[3] == "eos" and d["eos"]) else d["btn"]
@@ -1014,6 +1082,6 @@ def _run(case, mon):
     variants = "".join(("F" + ("h" if f["hold"] else "s") + ("e" if f["eos"] else "") + ("r" if f["repulse"] else ""))
                        for f in cfg["flippers"]) + "".join(
         (a["kind"][0].upper() + ("t" if a["timeout"] else "") + ("d" if a["delay"] else "") +
-         ("v" if a["reverse"] else "")) for a in cfg["autofires"])
+         ("v" if a["reverse"] else "") + ("w" if a.get("twin") else "")) for a in cfg["autofires"])
     return {"violations": viol, "clauses": clauses, "shape": variants + ":" + "".join(shape), "nontrivial": nontrivial,
             "obs": obs}
